@@ -87,6 +87,8 @@ def check_deliberate(b, sess):
         return None
     sess.evaluations += 1
     sess.count("deliberate_calls")
+    sess.sample({"kind": "deliberate", "agent": b0["agent"], "slice_caps": b0.get("slice_caps"), "s_max": b0["t2"]["metrics"]["sim_stats"]["max"], "policy": (b0["cfg"].get("t3") or {}).get("policy"),
+                 "ops": [getattr(o, "kind", None) for o in p.ops]})
     case = {"bundle": b0}
     if b != b0:
         sess.violation("deliberate-mutates-bundle", case, None)
